@@ -1,8 +1,8 @@
 (* C13 - the temporal store answers by the pointwise meaning of intervals.
    Property theorems only; each is closed by an exact reference to a lemma. *)
-From Coq Require Import List ZArith Bool Permutation.
+From Coq Require Import List ZArith Bool Permutation Lia.
 From MV Require Import Temporal.ITree Temporal.ITreeProofs Temporal.TStore Temporal.CoalesceProofs
-  Temporal.TStoreProofs Temporal.Semantics.
+  Temporal.TStoreProofs Temporal.Semantics Temporal.TStoreHistProofs.
 Import ListNotations.
 Open Scope Z_scope.
 
@@ -131,3 +131,126 @@ Theorem prefix_test_differs_only_at_minint : forall cur x, minInt64 <= fst cur -
   minInt64 < fst x -> fst x <= maxInt64 -> adjacent_prefix cur x = adjacent cur x.
 Proof. exact adjacent_prefix_agrees_lemma. Qed.
 Print Assumptions prefix_test_differs_only_at_minint.
+
+(* ---------------- histories that interleave Add and Coalesce *)
+(* op := OpAdd atom interval | OpCoalesce pred; run_ops lim ops folds the model's
+   ts_add / ts_coalesce over the history, starting from the empty store.
+   Hypothesis written out below: every finite interval handed to Add starts
+   within int64 (validity start <= end is Add's own check; ends are free).
+   Every reachable state satisfies the store invariant: distinct keys, every
+   tree meets the interval tree invariant with exact size and no duplicate,
+   and the pair count is exactly the number of stored pairs - in particular the
+   arithmetic `count - (before - after)` of Coalesce is exact, because the
+   coalesced list is duplicate free and Rebuild inserts every interval of it *)
+Theorem mixed_history_invariant : forall lim ops,
+  (forall a i, In (OpAdd a i) ops -> is_concrete i = true -> minInt64 <= ks i <= maxInt64) ->
+  store_inv (run_ops lim ops).
+Proof. exact mixed_history_inv. Qed.
+Print Assumptions mixed_history_invariant.
+
+(* coalescing never changes the set of instants at which an atom holds: the
+   history and the same history with every Coalesce deleted agree on "a holds
+   at t" for every atom and instant, when there is no per-atom limit ... *)
+Theorem coalesce_ops_pointset : forall lim ops a t, lim <= 0 ->
+  (forall a i, In (OpAdd a i) ops -> is_concrete i = true -> minInt64 <= ks i <= maxInt64) ->
+  ((exists i, In (a, i) (abs (run_ops lim ops)) /\ contains i t = true) <->
+   (exists i, In (a, i) (abs (run_ops lim (drop_coalesce ops))) /\ contains i t = true)).
+Proof. exact coalesce_ops_pointset_lemma. Qed.
+Print Assumptions coalesce_ops_pointset.
+
+(* ... and with a limit as long as no Add is refused by it (result code 3) in
+   either run (no_limit_refusal s ops: no Add of ops, run from s, returns 3).
+   Coalescing frees capacity, so without this hypothesis the two runs can differ:
+   limit_hypothesis_needed below *)
+Theorem coalesce_ops_pointset_no_refusal : forall lim ops a t,
+  (forall a i, In (OpAdd a i) ops -> is_concrete i = true -> minInt64 <= ks i <= maxInt64) ->
+  no_limit_refusal (ts_empty lim) ops -> no_limit_refusal (ts_empty lim) (drop_coalesce ops) ->
+  ((exists i, In (a, i) (abs (run_ops lim ops)) /\ contains i t = true) <->
+   (exists i, In (a, i) (abs (run_ops lim (drop_coalesce ops))) /\ contains i t = true)).
+Proof. exact coalesce_ops_pointset_norefusal_lemma. Qed.
+Print Assumptions coalesce_ops_pointset_no_refusal.
+
+(* hence a mixed history answers "a holds at t" like the set machine run on its Adds alone *)
+Theorem mixed_history_holds_by_set_machine : forall lim ops a t, lim <= 0 ->
+  (forall a i, In (OpAdd a i) ops -> is_concrete i = true -> minInt64 <= ks i <= maxInt64) ->
+  ((exists i, In (a, i) (abs (run_ops lim ops)) /\ contains i t = true) <->
+   (exists i, In (a, i) (spec_run lim (adds_of ops)) /\ contains i t = true)).
+Proof. exact mixed_history_set_machine_lemma. Qed.
+Print Assumptions mixed_history_holds_by_set_machine.
+
+(* right after Coalesce(p), for every atom of predicate p any two distinct finite
+   intervals stored are neither overlapping nor adjacent (distance >= 2) *)
+Theorem coalesced_state_separated : forall lim ops p a i j,
+  (forall a i, In (OpAdd a i) ops -> is_concrete i = true -> minInt64 <= ks i <= maxInt64) ->
+  fst a = p ->
+  In (a, i) (abs (run_ops lim (ops ++ [OpCoalesce p]))) -> In (a, j) (abs (run_ops lim (ops ++ [OpCoalesce p]))) ->
+  is_concrete i = true -> is_concrete j = true -> i <> j -> ke i + 1 < ks j \/ ke j + 1 < ks i.
+Proof. exact coalesced_state_separated_lemma. Qed.
+Print Assumptions coalesced_state_separated.
+
+(* the query theorems hold in every reachable state of a mixed history *)
+Theorem mixed_history_point_query_is_filter : forall lim ops q t,
+  (forall a i, In (OpAdd a i) ops -> is_concrete i = true -> minInt64 <= ks i <= maxInt64) ->
+  ts_facts_at (run_ops lim ops) q t =
+  filter (fun x : atom * iv => matches q (fst x) && contains (snd x) t) (abs (run_ops lim ops)).
+Proof. exact mixed_history_point_query. Qed.
+Print Assumptions mixed_history_point_query_is_filter.
+
+Theorem mixed_history_range_query_is_filter : forall lim ops q i,
+  (forall a i, In (OpAdd a i) ops -> is_concrete i = true -> minInt64 <= ks i <= maxInt64) ->
+  ts_facts_during (run_ops lim ops) q i =
+  filter (fun x : atom * iv => matches q (fst x) && overlaps (snd x) (ks i) (ke i)) (abs (run_ops lim ops)).
+Proof. exact mixed_history_range_query. Qed.
+Print Assumptions mixed_history_range_query_is_filter.
+
+Theorem mixed_history_scan_is_filter : forall lim ops q,
+  (forall a i, In (OpAdd a i) ops -> is_concrete i = true -> minInt64 <= ks i <= maxInt64) ->
+  ts_all_facts (run_ops lim ops) q = filter (fun x : atom * iv => matches q (fst x) && true) (abs (run_ops lim ops)).
+Proof. exact mixed_history_scan. Qed.
+Print Assumptions mixed_history_scan_is_filter.
+
+(* pointwise reading: when every interval handed to Add is one ast.NewInterval
+   can produce (wf_iv) and t is an int64 instant, the point query returns exactly
+   the stored pairs of matching atoms whose interval holds at t *)
+Theorem mixed_history_point_query_pointwise : forall lim ops q t a i,
+  (forall a i, In (OpAdd a i) ops -> is_concrete i = true -> minInt64 <= ks i <= maxInt64) ->
+  (forall a i, In (OpAdd a i) ops -> wf_iv i) -> minInt64 <= t <= maxInt64 ->
+  (In (a, i) (ts_facts_at (run_ops lim ops) q t) <->
+   In (a, i) (abs (run_ops lim ops)) /\ matches q a = true /\ holds_at i t).
+Proof. exact mixed_history_point_query_pointwise_lemma. Qed.
+Print Assumptions mixed_history_point_query_pointwise.
+
+(* non-vacuity: a history with Coalesce in the middle, an unbounded interval, a
+   duplicate after coalescing and a second atom meets the hypotheses; the
+   coalesced store keeps [1,6] [9,9] and the pair count is exact *)
+Example mixed_history_nonvacuous :
+  let ops := [OpAdd (1, [7]) (Ts 1, Ts 3); OpAdd (1, [7]) (Ts 4, Ts 6); OpAdd (1, [7]) (NegInf, Ts 0);
+              OpAdd (1, [8]) (Ts 5, PosInf); OpCoalesce 1; OpAdd (1, [7]) (Ts 9, Ts 9); OpAdd (1, [7]) (Ts 1, Ts 3);
+              OpCoalesce 1] in
+  (forall a i, In (OpAdd a i) ops -> is_concrete i = true -> minInt64 <= ks i <= maxInt64) /\
+  (forall a i, In (OpAdd a i) ops -> wf_iv i) /\
+  no_limit_refusal (ts_empty 5) ops /\ no_limit_refusal (ts_empty 5) (drop_coalesce ops) /\
+  count (run_ops 5 ops) = 4 /\
+  abs (run_ops 5 ops) = [((1, [7]), (NegInf, Ts 0)); ((1, [7]), (Ts 1, Ts 6)); ((1, [7]), (Ts 9, Ts 9)); ((1, [8]), (Ts 5, PosInf))].
+Proof.
+  split; [|split; [|split; [|split; [|split]]]].
+  - intros a i Hi Hc. simpl in Hi.
+    repeat (destruct Hi as [E|Hi]; [try discriminate E; injection E as <- <-; try discriminate Hc;
+                                     unfold ks, fst, minInt64, maxInt64; lia|]); destruct Hi.
+  - intros a i Hi. simpl in Hi.
+    repeat (destruct Hi as [E|Hi]; [try discriminate E; injection E as <- <-; split; cbn [fst snd]; discriminate|]); destruct Hi.
+  - vm_compute. repeat split; discriminate.
+  - vm_compute. repeat split; discriminate.
+  - vm_compute. reflexivity.
+  - vm_compute. reflexivity.
+Qed.
+
+(* the limit hypothesis of coalesce_ops_pointset is needed: Coalesce frees
+   capacity. With limit 2 the third Add is accepted after coalescing and refused
+   (code 3) without, so the atom holds at 10 in one run only *)
+Theorem limit_hypothesis_needed :
+  let ops := [OpAdd (1, [7]) (Ts 1, Ts 3); OpAdd (1, [7]) (Ts 4, Ts 6); OpCoalesce 1; OpAdd (1, [7]) (Ts 10, Ts 12)] in
+  abs (run_ops 2 ops) = [((1, [7]), (Ts 1, Ts 6)); ((1, [7]), (Ts 10, Ts 12))] /\
+  abs (run_ops 2 (drop_coalesce ops)) = [((1, [7]), (Ts 1, Ts 3)); ((1, [7]), (Ts 4, Ts 6))].
+Proof. split; vm_compute; reflexivity. Qed.
+Print Assumptions limit_hypothesis_needed.
